@@ -441,6 +441,7 @@ def _attachments(ctx, fx):
     rng = ctx.rng
     mimes = sorted(MIME_TYPE_MAPPING)
     small = [(n, d) for n, d in fx if len(d) < 200_000]
+    hung = 0
     for i in range(ctx.n(60, 600)):
         atts = []
         for _ in range(rng.randint(1, 3)):
@@ -455,16 +456,28 @@ def _attachments(ctx, fx):
                 stream = io.BytesIO(data)
             atts.append(EmailAttachment(filename=fname, mime_type=mt, data=stream, is_supported_mime_type=True))
         ec = EmailContent(from_email=EmailAddress(), attachments=atts)
+        if hung >= 2:       # non-termination is established
+            break
+        old_h = signal.signal(signal.SIGALRM, corpus._alarm)
+        signal.alarm(_CLI_LIMIT_S)
         try:
             for _ in ec.iterate_supported_attachments():
                 pass
             kind = "ok"
+        except corpus.Timeout:
+            kind = "hang"
+            hung += 1
+            broken.append(Broken("correspondence", "c01.attachments", f"iterate_supported_attachments did not end within {_CLI_LIMIT_S} s ({[a.filename for a in atts]})",
+                                 case={"kind": "attachments", "names": [a.filename for a in atts], "mimes": [a.mime_type for a in atts], "exc": "hang"}))
         except fam as e:
             kind = "family"
         except Exception as e:  # noqa
             kind = "other"
             broken.append(Broken("correspondence", "c01.attachments", f"{type(e).__name__} escaped iterate_supported_attachments ({[a.filename for a in atts]})",
                                  case={"kind": "attachments", "names": [a.filename for a in atts], "mimes": [a.mime_type for a in atts], "exc": type(e).__name__}))
+        finally:
+            signal.alarm(0)
+            signal.signal(signal.SIGALRM, old_h)
         ctx.case(("att", i, tuple(a.filename for a in atts)))
         ctx.count(f"attachments/{kind}")
     return broken[:5]
